@@ -1,0 +1,102 @@
+//go:build verif
+
+package signaller
+
+import (
+	"time"
+
+	sdk "github.com/cosmos/cosmos-sdk/types"
+
+	"github.com/bandprotocol/chain/v3/x/feeds/types"
+)
+
+// This file is compiled only with the build tag `verif`. It adds no behaviour to the daemon: it
+// exposes one iteration of the signaller loop with the wall clock replaced by an argument, so that
+// an external harness can run the real decision logic under virtual time.
+
+// VerifStepResult reports what one loop iteration did.
+type VerifStepResult struct {
+	// Stage reached: "queryErr", "notValid", "updateFailed", "noSignals", "bothanErr",
+	// "nothing" (no price passed the filter) or "submitted".
+	Stage string
+	// Prices handed to submitPrices (empty unless Stage == "submitted").
+	Prices []types.SignalPrice
+}
+
+// VerifStep is the body of the loop in Start (without the sleep) followed by the body of execute
+// with `now` in place of time.Now().
+func (s *Signaller) VerifStep(now time.Time) VerifStepResult {
+	resp, err := s.feedQuerier.QueryValidValidator(s.valAddress)
+	if err != nil {
+		return VerifStepResult{Stage: "queryErr"}
+	}
+
+	if !resp.Valid {
+		return VerifStepResult{Stage: "notValid"}
+	}
+
+	if !s.updateInternalVariables() {
+		return VerifStepResult{Stage: "updateFailed"}
+	}
+
+	// execute(), with the injected clock
+	nonPendingSignalIDs := s.getNonPendingSignalIDs()
+	if len(nonPendingSignalIDs) == 0 {
+		return VerifStepResult{Stage: "noSignals"}
+	}
+
+	res, err := s.bothanClient.GetPrices(nonPendingSignalIDs)
+	if err != nil {
+		return VerifStepResult{Stage: "bothanErr"}
+	}
+
+	prices, uuid := res.Prices, res.Uuid
+
+	signalPrices := s.filterAndPrepareSignalPrices(prices, nonPendingSignalIDs, now)
+	if len(signalPrices) == 0 {
+		return VerifStepResult{Stage: "nothing"}
+	}
+
+	s.submitPrices(signalPrices, uuid)
+	return VerifStepResult{Stage: "submitted", Prices: signalPrices}
+}
+
+// VerifAssignedTime is calculateAssignedTime with the signaller's own configuration, exactly as
+// shouldUpdatePrice calls it.
+func (s *Signaller) VerifAssignedTime(interval int64, timestamp int64) time.Time {
+	return calculateAssignedTime(
+		s.valAddress,
+		interval,
+		timestamp,
+		s.distributionOffsetPercentage,
+		s.distributionStartPercentage,
+	)
+}
+
+// VerifCalculateAssignedTime exposes calculateAssignedTime.
+func VerifCalculateAssignedTime(
+	valAddr sdk.ValAddress,
+	interval int64,
+	timestamp int64,
+	dpOffset uint64,
+	dpStart uint64,
+) time.Time {
+	return calculateAssignedTime(valAddr, interval, timestamp, dpOffset, dpStart)
+}
+
+// VerifPending returns the signal ids currently marked as pending.
+func (s *Signaller) VerifPending() []string {
+	var out []string
+	s.pendingSignalIDs.Range(func(k, _ any) bool {
+		if id, ok := k.(string); ok {
+			out = append(out, id)
+		}
+		return true
+	})
+	return out
+}
+
+// VerifConstants returns the package timing constants.
+func VerifConstants() (fixedIntervalOffset int64, timeBuffer int64) {
+	return FixedIntervalOffset, TimeBuffer
+}
